@@ -334,7 +334,7 @@ def run(ctx):
             for st in settings_for(drefs[name], ctx.tier, ctx.sub_rng("d", name), directed=True):
                 if (name, tuple(sorted(st.items()))) not in done:
                     cases.append(Case(name, prog, drefs[name], st, "directed"))
-        n = ctx.size(quick=30, thorough=900)
+        n = ctx.size(quick=24, thorough=600)
         import multiprocessing as mp
         jobs = []
         for i in range(n):
